@@ -17,6 +17,7 @@ INVARIANT InvMarginConsistent
 INVARIANT InvOrderIrrelevant
 INVARIANT InvConstAnswerAllSamples
 INVARIANT InvMulShortcut
+INVARIANT InvCarrierIrrelevant
 INVARIANT InvFailableMonotone
 INVARIANT InvAllMiss
 INVARIANT InvAllMissRejected
